@@ -139,7 +139,7 @@ def run(ctx):
     run_driver_checked(ctx, cexe_a, [cscr, ctx.path("conc_asan.ndjson")], what="drv_cptr_conc(asan)", replay_src=cscr, timeout=3000,
                        env={"ASAN_OPTIONS": "detect_leaks=0"})
     if os.path.exists(ctr) and os.path.getsize(ctr):
-        tl = open(ctr).read().split("\n")
+        tl = read_text(ctr).split("\n")
         div = sum(1 for x in tl if '"diverged":true' in x)
         ctx.cov["guided_schedules"] = len(gh) + len(gh2)
         ctx.cov["guided_schedules_diverged"] = div
